@@ -400,7 +400,11 @@ pub fn run(ctx: &mut Ctx) {
             }
             for (rt, log) in &logs {
                 if let Some(r) = &log.inconclusive {
-                    bad.push((0, "C08/__inconclusive".into(), format!("{rt}: {r}")));
+                    if *rt == "native" {
+                        bad.push((0, "C08/__inconclusive".into(), format!("{rt}: {r}")));
+                    } else {
+                        eprintln!("{rt} run without result: {}", crate::verdict::one_line(r, 200));
+                    }
                     continue;
                 }
                 for (_, text) in &log.reports {
